@@ -432,8 +432,15 @@ def vf4(ctx, c):
     # VF-6 sniff order
     gc = repo.method(VF, "get_coco_files")
     order = []
-    for n in body_without_doc(gc.node):
-        if isinstance(n, ast.Try):
+    # what the bytes are does not depend on what the caller hopes they are
+    for n in ast.walk(gc.node):
+        if isinstance(n, ast.If) and "virtual_file_type" in U(n.test) and any(isinstance(x, ast.Call) and U(x.func) in KINDS.values() for x in ast.walk(n)):
+            c.finding("get_coco_files:order", "a sniffer is tried first when the caller asks for its kind (%s)" % U(n.test)[:60],
+                      "get_coco_files tries a reader under `%s`: the answer to 'what is in this file' then follows the kind requested, and the permissive cassette reader "
+                      "accepts a disk image or a binary as an empty cassette, so the kind-mismatch refusal of open_virtual_file never fires for that request" % U(n.test)[:70],
+                      repo.loc(gc, n))
+    for n in sorted([x for x in ast.walk(gc.node) if isinstance(x, ast.Try)], key=lambda x: (x.lineno, x.col_offset)):
+        if any(isinstance(x, ast.Call) and U(x.func) in KINDS.values() for x in ast.walk(n)):
             for x in ast.walk(n):
                 if isinstance(x, ast.Call) and U(x.func) in KINDS.values():
                     order.append(U(x.func))
@@ -542,6 +549,16 @@ def vf3(ctx, c):
                     all(a in ("open_virtual_file", "add_coco_file", "save_virtual_file", "list_files") for a in names)
                 c.check(good, name + ":typestate", "open -> add* -> save", "calls %s" % names,
                         "%s: the %s target goes through %s; it must be opened (which is what detects an existing file) before files are added and saved once" % (rel, switch, names), where)
+                opens = [x for a, x in seq if a == "open_virtual_file"]
+                for st in blk[blk.index(site) + 1:]:
+                    if opens and any(x is opens[0] for x in ast.walk(st)):
+                        if isinstance(st, (ast.If, ast.While, ast.For)):
+                            c.finding(name + ":open", "the target is opened only under a condition (%s)" % U(st.test if hasattr(st, "test") else st.iter)[:50],
+                                      "%s: --%s opens its target only when `%s`; open_virtual_file is what notices an existing file, so on the other branch the "
+                                      "overwrite protection of save_virtual_file sees file_exists == False" % (rel, switch, U(st.test if hasattr(st, "test") else st.iter)[:60]),
+                                      "%s:%d" % (rel, getattr(st, "lineno", 0)))
+                        else:
+                            c.ok(name + ":open", "opened unconditionally", where)
                 for sv in saves:
                     kw = {k.arg: U(k.value) for k in sv.keywords}
                     pos = [U(a) for a in sv.args]
@@ -727,9 +744,20 @@ def cli3(ctx, c):
         m = re.fullmatch(r"enumerate\((\w+)(, start=\d+)?\)|(\w+)", it)
         if m and (m.group(1) or m.group(3)):
             nm = m.group(1) or m.group(3)
-            for a_ in ast.walk(node):
-                if isinstance(a_, ast.Assign) and U(a_.targets[0]) == nm:
-                    it = it.replace(nm, U(a_.value))
+            defs = [a_ for a_ in ast.walk(blk) if isinstance(a_, ast.Assign) and U(a_.targets[0]) == nm] or \
+                [a_ for a_ in ast.walk(node) if isinstance(a_, ast.Assign) and U(a_.targets[0]) == nm]
+            driven = [a_ for a_ in defs for x in ast.walk(a_.value) if isinstance(x, (ast.ListComp, ast.GeneratorExp)) and len(x.generators) >= 2
+                      and U(x.generators[0].iter) == lst]
+            if driven:
+                c.finding("file_util.main:%s:loop" % sw, "the files copied are enumerated from the --files list",
+                          "file_util --%s builds the selection as `%s`: the outer loop runs over --files, so the files are copied in the order of the switch and once per "
+                          "mention of a name, not once each in the order of the source image" % (sw, U(driven[0].value)[:80]), "file_util.py:%d" % driven[0].lineno)
+                continue
+            if len(defs) > 1:
+                c.undecided("file_util.main:%s:loop" % sw, "the listing is rebound before the loop", "; ".join(U(a_.value)[:40] for a_ in defs), wb)
+                continue
+            for a_ in defs:
+                it = it.replace(nm, U(a_.value))
         tv = [U(e) for e in lp.target.elts] if isinstance(lp.target, ast.Tuple) else [U(lp.target)]
         adds = _calls(lp, ".add_coco_file")
         whole = re.fullmatch(r"enumerate\(\w+\.list_files\(\)(, start=\d+)?\)|\w+\.list_files\(\)", it) is not None
